@@ -98,7 +98,10 @@ def run_harness(repo_copy, name, info, timeout=1800, playback=False):
     wall = time.time() - t0
     if 'VERIFICATION:- SUCCESSFUL' in out and 'Checking harness' in out:
         status = 'ok'
-    elif 'VERIFICATION:- FAILED' in out:
+    elif 'VERIFICATION:- FAILED' in out and re.search(r'\*\* [1-9]\d* of \d+ failed', out) and 'Failed Checks:' in out \
+            and 'out of memory' not in out and 'CBMC failed' not in out:
+        # a property violation: CBMC finished and names the failed checks.  Anything else that ends in FAILED (CBMC ran
+        # out of memory, crashed, was killed) is a tool problem: no verdict from this harness
         status = 'failed'
     else:
         status = 'error'
